@@ -209,6 +209,20 @@ CLAIMED["C05"] = (
     "scheduler interleavings beyond sleep(0) suspension, are not modelled; asyncio itself is trusted.  Listeners "
     "attached after construction are C12's subject (D11).")
 
+CLAIMED["C12"] = (
+    "Theorems (Properties/C12.v): an action / validator name gets exactly one wrapper per provider of the "
+    "resolution round that has the attribute, machine, model, constructor and late listeners alike; a guard name "
+    "provided by several objects is one entry over all of them whose value is truthy iff truthy on all; resolving "
+    "the same listeners again - immediately or after any number of other attachments - leaves every executor "
+    "unchanged (no duplicated call).  " + ENG_TIE + "Here every callback / guard / validator name (user and "
+    "convention names) is spread at random over machine, model, constructor listeners and listeners attached "
+    "later with add_listener at random points of the history, repeatedly and several at a time; per-provider "
+    "callback logs with their arguments and the firing of guarded transitions are compared.  Isolation pairs: two "
+    "instances of one class with different listener objects are driven alternately and A's trace must equal A "
+    "driven alone.  Probe: a coroutine listener added to a sync machine (known finding D11).",
+    "Coq proof (provider parity, guard over all providers, attach-idempotence) + differential correspondence + isolation pairs",
+    "DESIGN.md 5 C12", "Multi-name boolean expressions whose names live on different resolution rounds (D19) are not generated.")
+
 PENDING_REASON = "check not built yet in this session (work in progress; see DESIGN.md 9 for the order of work)"
 
 ALL = [f"C{i:02d}" for i in range(1, 19)]
